@@ -287,6 +287,29 @@ def npy_prefix_parses(ctx, blob, tag, spec):
         EOCD.append((f'npyparseall {F.hx(b)}', ranges_of(hits), 'numpy.lib.format.read_array vs parseNpy', f'{tag}: every prefix of member {name}', F.emit(spec)))
 
 
+
+def tiled_prefix_opens(ctx, data, start, oracle, tag, spec_src):
+    """every prefix: the repaired loader's opener `_open_archive` (tiling check) + reading every member, vs `openTiled`"""
+    from dimod.constrained import constrained as cqm_mod
+    if not hasattr(cqm_mod, '_open_archive'):
+        ctx.tick('tiling check: _open_archive not in the source under test')
+        return
+    hits = []
+    for j in range(len(data) + 1):
+        f = io.BytesIO(data[:j])
+        f.seek(min(start, j))
+        try:
+            if j < start:
+                raise ValueError('header incomplete')
+            with cqm_mod._open_archive(f) as zf:
+                for nm in zf.namelist():
+                    zf.read(nm)
+            hits.append(j)
+        except Exception:  # noqa
+            pass
+    ctx.tick(f'tiling check {tag}: opens at ' + ('the complete file only' if hits == [len(data)] else ranges_of(hits)))
+    EOCD.append((f'ziptiledall {start} {F.hx(data)} {oracle}', ranges_of(hits), 'constrained._open_archive vs openTiled', tag, spec_src))
+
 def cqm_files(ctx, r, S, spec):
     m = F.build(spec)
     compress = r.random() < .4
@@ -299,6 +322,7 @@ def cqm_files(ctx, r, S, spec):
         eocd_prefixes(ctx, data, 'ConstrainedQuadraticModel.from_file', 'cqm whole file', spec)
     if len(data) <= 3000:
         zip_prefix_opens(ctx, data, C9.zip_entries(data)[1], 'zipfile.ZipFile vs zipOpen(readDirBytes)', 'cqm whole file', spec)
+        tiled_prefix_opens(ctx, data, hend, C9.zip_entries(data)[1], 'cqm whole file', F.emit(spec))
 
 
 def dqm_files(ctx, r, S, spec):
@@ -973,6 +997,9 @@ def adversarial_payloads(ctx, r):
             continue
         real = F.sweep_prefixes(load, judge, data, ks=ks)
         ctx.tick(f'adversarial {kind}: {icls}')
+        if kind == 'cqm' and len(data) <= 2500:
+            hend = F.split_header(data)[3]
+            tiled_prefix_opens(ctx, data, hend, C9.zip_entries(data)[1], f'adversarial cqm: {icls}', F.PRELUDE + ADV_SRC + src)
         bad = [k for k in ks if real.get(k, 'MISSING')[:1] not in ('e', '=')]
         for k in ks:
             rc = real.get(k, 'MISSING')
@@ -1007,10 +1034,11 @@ def run(ctx):
     eocd_evaluate(ctx)
     expr_sweeps(ctx, r, ctx.scale(20, 300), guarded_budget)
     raw_loader_cases(ctx, r, ctx.scale(120, 1500))
-    entry_point_sweeps(ctx, r, ctx.scale(10, 150), ctx.scale(160, 600))
-    short_read_sweeps(ctx, r, ctx.scale(24, 400), ctx.scale(90, 400))
-    legacy_truncations(ctx, r, ctx.scale(120, 1200))
+    entry_point_sweeps(ctx, r, ctx.scale(10, 80), ctx.scale(160, 400))
+    short_read_sweeps(ctx, r, ctx.scale(24, 250), ctx.scale(90, 300))
+    legacy_truncations(ctx, r, ctx.scale(120, 600))
     adversarial_payloads(ctx, r)
+    eocd_evaluate(ctx)
     if not ctx.quick:
         valgrind_sample(ctx, r, 3)
         corrupt_sweep(ctx, r, 90)
